@@ -308,6 +308,94 @@ def _run(h):
         o = outcome(flow)
         if o != ('ok', True):
             ctx.fail('mutate-after-parse', 'key loaded with old-format headers cannot be re-imported after protect()', {'op': 'mutate', 'key': name, 'impl': repr(o)})
+    grow_after_parse(h)
+    big_partial(h)
+    usage255_after_unlock(h)
+
+
+def grow_after_parse(h):
+    """a packet parsed with a narrow old-format (or any) length field whose body is then enlarged in place"""
+    ctx = h.ctx
+    for tag, mk in ((13, 'uid'), (11, 'lit')):
+        for start, w in ((10, 1), (200, 1), (300, 2)):
+            for target in (255, 256, 65535, 65536, 65537, 70000, 191, 192, 8383, 8384):
+                for fmt in ('old', 'new'):
+                    if tag == 11:
+                        body0 = b'b' + b'\x00' + (1).to_bytes(4, 'big') + b'x' * (start - 6)
+                    else:
+                        body0 = b'u' * start
+                    hdr = (bytes([0x80 | (tag << 2) | (0 if w == 1 else 1)]) + len(body0).to_bytes(w, 'big')) if fmt == 'old' else S.new_header(tag, len(body0))
+                    case = {'op': 'grow', 'tag': tag, 'start': start, 'width': w, 'target': target, 'fmt': fmt}
+                    ctx.case('mutate-after-parse', (tag, start, w, target, fmt), sample=case)
+                    def flow():
+                        p, rest = h.parse(hdr + body0 + TRAIL)
+                        if tag == 13:
+                            p.uid = 'v' * target
+                        else:
+                            p._contents = bytearray(b'y' * (target - 6))
+                        p.update_hlen()
+                        out = bytes(p.__bytearray__())
+                        t2, b2, whole = S.split_packets(out + TRAIL)[0]
+                        p2, rest2 = h.parse(out + TRAIL)
+                        return (t2, len(b2), whole == out, rest2 == TRAIL, bytes(p2.__bytearray__()) == out)
+                    o = outcome(flow)
+                    if o != ('ok', (tag, target, True, True, True)):
+                        ctx.fail('mutate-after-parse', 'packet enlarged after parsing does not re-serialise to a well-formed packet', dict(case, impl=repr(o)))
+
+
+def big_partial(h):
+    """partial body lengths with large chunk exponents (2^15 .. 2^17) on a literal packet"""
+    ctx = h.ctx
+    n = (1 << 17) + (1 << 16) + 4099
+    body = b'b' + b'\x00' + (7).to_bytes(4, 'big') + bytes((i * 13 + 5) & 0xff for i in range(n - 6))
+    for exps in ([17, 16], [16, 16, 16], [15, 17], [16], [17]):
+        pos, enc = 0, bytearray([0xc0 | 11])
+        for k in exps:
+            enc += bytes([224 + k]) + body[pos:pos + (1 << k)]; pos += 1 << k
+        enc += S.new_header(0, n - pos)[1:] + body[pos:]
+        h.foreign('foreign-framing', 11, body, 'big-literal', 'partial-%s' % exps, bytes(enc))
+
+
+def usage255_after_unlock(h):
+    """a foreign secret key with S2K usage 255 (16-bit checksum inside the ciphertext) must export identically before,
+    during and after an unlock scope; written with the C06 model encoder when that driver is built"""
+    ctx, pgpy = h.ctx, h.pgpy
+    try:
+        d6 = Driver('c06')
+    except Exception as ex:
+        ctx.skipped.append('usage-255 after unlock: C06 driver unavailable (%r)' % ex); return
+    try:
+        from .c06 import make_oracles
+        d6.oracles.update(make_oracles())
+        for name in ('rsa2048', 'ed25519'):
+            key = get(name)
+            plain = bytes(key)
+            npk = len([1 for t, b, w in S.split_packets(plain) if t in (5, 7)])
+            forms = ';'.join('S,%s,%s,%s,%s,%s,%s,%s,%s' % (hn(255), hn(9), hn(3), hn(8), hx(bytes(range(8))), hn(96), hx(bytes(range(16))), hx(b'pw255')) for _ in range(npk))
+            try:
+                out = d6.call('rewrite', hx(plain), forms)
+            except Exception as ex:
+                ctx.skipped.append('usage-255 after unlock: C06 driver protocol differs (%r)' % ex); return
+            if out == 'ERR':
+                ctx.skipped.append('usage-255 after unlock: model could not rewrite ' + name); continue
+            blob = unhx(out)
+            case = {'op': 'usage255', 'key': name, 'blob': blob.hex()}
+            ctx.case('mutate-after-parse', ('usage255', name), sample={'key': name, 'op': 'usage-255 key: load, unlock, export'})
+            def flow():
+                k2 = pgpy.PGPKey.from_blob(blob)[0]
+                a = bytes(k2) == blob
+                with k2.unlock('pw255'):
+                    b = bytes(k2) == blob
+                c = bytes(k2) == blob
+                return (a, b, c)
+            o = outcome(flow)
+            if o != ('ok', (True, True, True)):
+                ctx.fail('mutate-after-parse', 'usage-255 secret key does not export identically before / during / after unlock', dict(case, impl=repr(o)))
+            else:
+                for t, b, w in S.split_packets(blob):
+                    h.own_output('own-output', w, 'usage255:' + name)
+    finally:
+        d6.close()
 
 
 def replay(ctx, case):
